@@ -108,6 +108,41 @@ impl<'a> Write for Dst<'a> {
         self.accepted.extend_from_slice(&buf[..n]);
         Ok(n)
     }
+    /// native vectored write: the acceptance schedule applies to the concatenation of the buffers
+    /// (a sink such as Cursor<&mut [u8]>, a pipe or a socket may accept part of a vectored write)
+    fn write_vectored(&mut self, bufs: &[std::io::IoSlice<'_>]) -> std::io::Result<usize> {
+        let total: usize = bufs.iter().map(|b| b.len()).sum();
+        if total == 0 {
+            return Ok(0);
+        }
+        if let Some((off, kind)) = self.fault {
+            if self.accepted.len() >= off {
+                self.fired = true;
+                return match kind {
+                    Some(k) => Err(std::io::Error::new(k, "injected destination fault")),
+                    None => Ok(0),
+                };
+            }
+        }
+        let mut n = total;
+        if !self.sizes.is_empty() {
+            n = n.min(self.sizes[self.call % self.sizes.len()].max(1));
+        }
+        if let Some((off, _)) = self.fault {
+            n = n.min(off - self.accepted.len());
+        }
+        self.call += 1;
+        let mut left = n;
+        for b in bufs {
+            let k = left.min(b.len());
+            self.accepted.extend_from_slice(&b[..k]);
+            left -= k;
+            if left == 0 {
+                break;
+            }
+        }
+        Ok(n)
+    }
     fn flush(&mut self) -> std::io::Result<()> {
         Ok(())
     }
